@@ -1,5 +1,122 @@
 import FGVerif.Driver.Shared
-/-! driver operations for C11 (stub: replaced by the property's own driver) -/
+import FGVerif.Model.C11
+/-!
+  driver operations for C11
+
+    (C11 rc <I> [<flat>])                         reaction centre
+    (C11 unreachable <g> (<start> …) <r> [(<id> …)])   set of unreachable ids (sorted)
+    (C11 prune <I> <r> <insertH 0|1> [<flat>])    pruned graph
+
+  `<flat>` = `((node …) ((a b label) …))`: nodes sorted by id (node form of `Graph`), edges as
+  sorted `(min max label)` — the order-insensitive view of a simple graph.
+  Reply: `(ok <model output> <spec_model> <spec_impl> <wellformed input 0|1> [<corr 0|1|_>])`.
+  For `prune` the correspondence is decided here (`corr`): model and implementation must agree
+  up to a renaming of the freshly inserted hydrogen ids (the property does not fix which fresh id
+  goes to which cut bond).
+-/
 namespace C11
-def handle : List SExp → Option SExp := fun _ => none
+open SExp
+
+abbrev FlatEdge := Int × Int × Label
+abbrev Flat := List (Int × NodeAttr) × List FlatEdge
+
+def sortNodes (l : List (Int × NodeAttr)) : List (Int × NodeAttr) :=
+  l.mergeSort fun a b => decide (a.1 ≤ b.1)
+
+def sortEdges (l : List FlatEdge) : List FlatEdge :=
+  l.mergeSort fun a b => a.1 < b.1 || (a.1 == b.1 && decide (a.2.1 ≤ b.2.1))
+
+def flatten (g : Graph) : Flat :=
+  (sortNodes g.nodes, sortEdges (g.edges.map fun e => (min e.1 e.2.1, max e.1 e.2.1, e.2.2.2)))
+
+/-- rebuild a simple graph from the flat view (adjacency rows in edge-list order) -/
+def unflatten (f : Flat) : Graph :=
+  { multi := false
+    nodes := f.1
+    adj := f.1.map fun n => (n.1, f.2.filterMap fun e =>
+      if e.1 == n.1 then some (e.2.1, [(0, e.2.2)])
+      else if e.2.1 == n.1 then some (e.1, [(0, e.2.2)]) else none) }
+
+def asFlatEdge : SExp → Option FlatEdge
+  | .list [a, b, l] => do pure (← asInt a, ← asInt b, ← asLabel l)
+  | _ => none
+
+def asFlat : SExp → Option Flat := asPair (asList asNode) (asList asFlatEdge)
+
+def ofFlat (f : Flat) : SExp :=
+  .list [ofList ofNode f.1, ofList (fun (e : FlatEdge) => .list [ofInt e.1, ofInt e.2.1, ofLabel e.2.2]) f.2]
+
+def isRaised : SExp → Bool
+  | .list [.atom "raised", _] => true
+  | _ => false
+
+/-- rename the nodes that are not nodes of `its` to `fresh, fresh+1, …` in the order of
+    (anchor, id): canonical form modulo the choice of fresh ids -/
+def canonFresh (its : Graph) (f : Flat) : Flat :=
+  let g := unflatten f
+  let news := (f.1.map (·.1)).filter fun h => !its.nodeIds.contains h
+  let keyed := news.map fun h => ((g.neighbors h).headD 0, h)
+  let sorted := keyed.mergeSort fun a b => a.1 < b.1 || (a.1 == b.1 && decide (a.2 ≤ b.2))
+  let order := sorted.map (·.2)
+  let base := freshId its
+  let ren := fun (x : Int) => if news.contains x then base + Int.ofNat (order.idxOf x) else x
+  (sortNodes (f.1.map fun n => (ren n.1, n.2)),
+   sortEdges (f.2.map fun e => (min (ren e.1) (ren e.2.1), max (ren e.1) (ren e.2.1), e.2.2)))
+
+def flatBeq (a b : Flat) : Bool := toString (ofFlat a) == toString (ofFlat b)
+
+def handle : List SExp → Option SExp
+  | .atom "rc" :: its :: rest => do
+      let its ← asGraph its
+      let model := getRc its
+      let specModel := specRc its model
+      let specImpl ← match rest with
+        | [impl] =>
+            if isRaised impl then pure (ofBool false) else do
+              let f ← asFlat impl
+              pure (ofBool (specRc its (unflatten f)))
+        | _ => pure none'
+      pure (.list [.atom "ok", ofFlat (flatten model), ofBool specModel, specImpl,
+                   ofBool (wellFormed its && simple its)])
+  | .atom "unreachable" :: g :: starts :: r :: rest => do
+      let g ← asGraph g
+      let starts ← asList asInt starts
+      let r ← asNat r
+      if g.nodes.isEmpty then
+        -- networkx refuses to build the adjacency matrix of an empty graph (out of domain)
+        pure (.list [.atom "ok", .list [.atom "raised", .atom "Other"], ofBool true, none', ofBool (wellFormed g)])
+      else if starts.any (fun s => !g.nodeIds.contains s) then
+        -- `node_index[n]` raises (out of domain: start nodes must be nodes)
+        pure (.list [.atom "ok", .list [.atom "raised", .atom "KeyError"], ofBool true, none', ofBool (wellFormed g)])
+      else
+        let model := getUnreachable g starts r
+        let specModel := specUnreachable g starts r model
+        let specImpl ← match rest with
+          | [impl] =>
+              if isRaised impl then pure (ofBool false) else do
+                let out ← asList asInt impl
+                pure (ofBool (specUnreachable g starts r out))
+          | _ => pure none'
+        pure (.list [.atom "ok", ofList ofInt model, ofBool specModel, specImpl, ofBool (wellFormed g)])
+  | .atom "prune" :: its :: r :: ins :: rest => do
+      let its ← asGraph its
+      let r ← asNat r
+      let ins ← asBool ins
+      if its.nodes.isEmpty then
+        pure (.list [.atom "ok", .list [.atom "raised", .atom "Other"], ofBool true, none', ofBool true, none'])
+      else
+        let model := pruneItsToRc its r ins
+        let specModel := specPrune its r ins model
+        let fm := flatten model
+        let (specImpl, corr) ← match rest with
+          | [impl] =>
+              if isRaised impl then pure (ofBool false, ofBool false) else do
+                let f ← asFlat impl
+                pure (ofBool (specPrune its r ins (unflatten f)),
+                      ofBool (flatBeq (canonFresh its fm) (canonFresh its f)))
+          | _ => pure (none', none')
+        pure (.list [.atom "ok", ofFlat fm, ofBool specModel, specImpl,
+                     ofBool (wellFormed its && simple its), corr])
+  | _ => none
+
 end C11
